@@ -78,7 +78,7 @@ def case_to_coq(I, c):
 def eval_cases(ck, name, cases):
     I = Interner()
     body = ";\n  ".join(case_to_coq(I, c) for c in cases)
-    txt = ("From Coq Require Import List ZArith Bool String Ascii.\nFrom Qryn Require Import model.Rotate.\n"
+    txt = ("From Coq Require Import List ZArith Bool String Ascii.\nFrom Qryn Require Import model.Rotate model.RotateObs.\n"
            "Import ListNotations.\nOpen Scope string_scope.\nOpen Scope Z_scope.\n" +
            "\n".join(I.defs) + "\n"
            "Definition cases : list case := [\n  " + body + "].\n"
@@ -286,4 +286,9 @@ def run(ck):
         "C19: disk names containing '%' (MoveTo is spliced into a Sprintf format) are outside the generator",
     ]
     ck.coq_props()
+    ok, out = ck.coq_make(["model/RotateObs.vo"])
+    if not ck.obligation("model/RotateObs.v (case records, comparison, oracle) compiles", ok, out[-800:]):
+        return
     run_rotate(ck)
+    if not ck.quick():
+        ck.coqchk(["Qryn.props.C19"])
